@@ -673,20 +673,24 @@ func (f *fileConfig) Reload(opts ...ReloadedConfigDataOption) error {
 		return err
 	}
 
+	// compare and update under one hold of the lock, so that concurrent
+	// reloads (timer and pubsub) cannot both apply the same change
+	f.mux.Lock()
 	// if nothing's changed, we're fine
 	if f.mainHash == cfg.mainHash && f.rulesHash == cfg.rulesHash {
+		f.mux.Unlock()
 		return err
 	}
 
 	// otherwise, update our state and call the callbacks
-	f.mux.Lock()
 	f.mainConfig = cfg.mainConfig
 	f.mainHash = cfg.mainHash
 	f.rulesConfig = cfg.rulesConfig
 	f.rulesHash = cfg.rulesHash
+	callbacks := f.callbacks
 	f.mux.Unlock() // can't defer -- we don't want callbacks to deadlock
 
-	for _, cb := range f.callbacks {
+	for _, cb := range callbacks {
 		cb(cfg.mainHash, cfg.rulesHash)
 	}
 	return err
